@@ -317,6 +317,7 @@ def enabled(m: Model, alphabet):
 
 class Sys:
     def __init__(self):
+        _Wall.now = 1_700_000_000.0          # every execution starts at the same virtual wall time
         self.raw = _fresh_db()
         self.model = Model()
         self.obs: list[dict] = []
